@@ -66,7 +66,7 @@ Start(k) ==
             /\ pkid' = IdMap(1)
             /\ pk0' = IdMap(1)
     /\ flip' = 0 /\ nbad' = 0 /\ phase' = "sweep" /\ nlab' = 0
-    /\ UNCHANGED <<owner, todo, th, ci, out, post>>
+    /\ UNCHANGED <<owner, todo, th, ci, out, post, ds>>
 
 TInit ==
     /\ tr = 0 /\ l = 0 /\ exact = 0
@@ -75,6 +75,7 @@ TInit ==
     /\ owner = <<>> /\ todo = {} /\ th = [t \in Threads |-> Idle]
     /\ flip = 0 /\ nbad = 0 /\ phase = "sweep" /\ ci = 0 /\ nlab = 0 /\ out = <<>>
     /\ post = [hist |-> <<>>, rc |-> TRUE]
+    /\ ds = DsInit0
 
 Cur == Traces[tr]
 NS == Len(Cur.sweeps)
@@ -113,7 +114,7 @@ TraceSweep ==
             /\ flip' = ev.flip
             /\ l' = l + 1
             /\ exact' = exact + (IF c = "ok" THEN 1 ELSE 0)
-            /\ UNCHANGED <<g, owner, todo, th, phase, ci, nlab, out, post, tr>>
+            /\ UNCHANGED <<g, owner, todo, th, phase, ci, nlab, out, post, ds, tr>>
        ELSE /\ Verdict("reject", c, l + 1)
             /\ Start(tr + 1)
 
